@@ -283,6 +283,7 @@ fn build(t: &T, mode: Mode, depth: usize, arena: &mut Arena) -> Signature {
                 Signature::array(c)
             }
         }
+        #[cfg(feature = "gvariant")]
         T::Maybe(e) => {
             let c = build(e, mode, depth + 1, arena);
             if stat {
@@ -291,6 +292,9 @@ fn build(t: &T, mode: Mode, depth: usize, arena: &mut Arena) -> Signature {
                 Signature::maybe(c)
             }
         }
+        // without the gvariant feature the reference never produces a maybe node (Rules.maybe = false)
+        #[cfg(not(feature = "gvariant"))]
+        T::Maybe(_) => unreachable!("maybe needs the gvariant feature"),
         T::Dict(k, v) => {
             let k = build(k, mode, depth + 1, arena);
             let v = build(v, mode, depth + 1, arena);
